@@ -465,6 +465,49 @@ static void v4_suite(vf::Rng& r) {
   if (!(c1 == c3) || !(c2 == c3)) C->violation("vector4:ctor", "composite constructors differ", "V4(V2(1,2),3,4) / V4(V3(1,2,3),4)");
 }
 
+// Floating-point component vectors: == / != / < must be the componentwise IEEE definitions (so -0.0 == +0.0),
+// and the arithmetic operators componentwise; values come out of operation histories (negation, scaling) so that
+// negative zero actually occurs.
+template <typename V, int N>
+static void float_vector_suite(const char* name) {
+  static const double vals[] = {0.0, -0.0, 1.0, -1.0, 0.5, -2.5, 4.0};
+  const int K = sizeof(vals) / sizeof(vals[0]);
+  uint64_t total = 1;
+  for (int i = 0; i < 2 * N; i++) total *= K;
+  for (uint64_t idx = 0; idx < total; idx++) {
+    if (!C->mine(idx)) continue;
+    double a[4] = {0, 0, 0, 0}, b[4] = {0, 0, 0, 0};
+    uint64_t t = idx;
+    for (int i = 0; i < N; i++) { a[i] = vals[t % K]; t /= K; }
+    for (int i = 0; i < N; i++) { b[i] = vals[t % K]; t /= K; }
+    V A, B;
+    double* pa = reinterpret_cast<double*>(&A);
+    double* pb = reinterpret_cast<double*>(&B);
+    for (int i = 0; i < N; i++) { pa[i] = a[i]; pb[i] = b[i]; }
+    C->evaluations++;
+    C->crumb_n(name, idx);
+    bool eq = true;
+    int cmp = 0;
+    for (int i = 0; i < N; i++) {
+      if (!(a[i] == b[i])) eq = false;
+      if (cmp == 0) { if (a[i] < b[i]) cmp = -1; else if (a[i] > b[i]) cmp = 1; }
+    }
+    auto d = [&]() { std::string r = name; r += " a=("; for (int i = 0; i < N; i++) r += fmt("%g%s", a[i], i + 1 < N ? "," : ")"); r += " b=("; for (int i = 0; i < N; i++) r += fmt("%g%s", b[i], i + 1 < N ? "," : ")"); return r; };
+    if ((A == B) != eq) C->violation(std::string(name) + ":float-eq", "operator== is not the componentwise IEEE comparison (e.g. -0.0 vs +0.0)", d());
+    if ((A != B) == eq) C->violation(std::string(name) + ":float-ne", "operator!= is not the negation of the componentwise comparison", d());
+    if ((A < B) != (cmp < 0)) C->violation(std::string(name) + ":float-less", "operator< is not the lexicographic order", d());
+    if ((!(A < B) && !(B < A)) != (A == B)) C->violation(std::string(name) + ":float-less-consistent-with-eq", "incomparable but not equal (or vice versa)", d());
+    // a history that produces negative zeros: -(A) == (zero - A), (A * -1) == -A
+    V n1 = -A, z = A - A, n2 = z - A, n3 = A * -1.0;
+    if (!(n1 == n2) || !(n1 == n3)) C->violation(std::string(name) + ":float-neg-history", "-v, 0-v and v*-1 do not compare equal", d());
+    V s1 = A + B, m1 = A - B;
+    const double* ps = reinterpret_cast<const double*>(&s1);
+    const double* pm = reinterpret_cast<const double*>(&m1);
+    for (int i = 0; i < N; i++) if (ps[i] != a[i] + b[i] || pm[i] != a[i] - b[i]) { C->violation(std::string(name) + ":float-add-sub", "componentwise +/-", d()); break; }
+    C->cls(fmt("%s:float:%s:cmp%d", name, eq ? "eq" : "ne", cmp));
+  }
+}
+
 typedef Matrix4<int64_t> MI;
 typedef Matrix4<double> MD;
 
@@ -649,6 +692,17 @@ int main(int argc, char** argv) {
       {"log2_i32", [](vf::Rng& r) { log2_suite<int32_t>("i32", r); }},
       {"log2_i64", [](vf::Rng& r) { log2_suite<int64_t>("i64", r); }},
       {"log2_size_t", [](vf::Rng& r) { log2_suite<size_t>("size_t", r); }},
+      // distinct fundamental types of the same width (on LP64 int64_t is long, so long long is a different type)
+      {"log2_ll", [](vf::Rng& r) { log2_suite<long long>("longlong", r); }},
+      {"log2_ull", [](vf::Rng& r) { log2_suite<unsigned long long>("ulonglong", r); }},
+      {"log2_l", [](vf::Rng& r) { log2_suite<long>("long", r); }},
+      {"log2_ul", [](vf::Rng& r) { log2_suite<unsigned long>("ulong", r); }},
+      {"log2_int", [](vf::Rng& r) { log2_suite<int>("int", r); }},
+      {"log2_uint", [](vf::Rng& r) { log2_suite<unsigned>("uint", r); }},
+      {"log2_short", [](vf::Rng& r) { log2_suite<short>("short", r); }},
+      {"log2_uchar", [](vf::Rng& r) { log2_suite<unsigned char>("uchar", r); }},
+      {"gcd_ll", [](vf::Rng& r) { gcd_suite<long long>("longlong", r); }},
+      {"gcd_ull", [](vf::Rng& r) { gcd_suite<unsigned long long>("ulonglong", r); }},
   };
   for (size_t i = 0; i < parts.size(); i++)
     if (want("int") && c.mine(i)) parts[i].fn(r);
@@ -661,6 +715,9 @@ int main(int argc, char** argv) {
     v3_suite();
     v3_transitive(r);
     v4_suite(r);
+    float_vector_suite<Vector2<double>, 2>("vector2d");
+    float_vector_suite<Vector3<double>, 3>("vector3d");
+    float_vector_suite<Vector4<double>, 4>("vector4d");
   }
   if (want("matrix")) matrix_suite(r);
   c.sample("gcd<u8>(all pairs 0..255 capped at 300), gcd<u64>(2^k±1 pairs), log2i<T>(2^k-1,2^k,2^k+1 for every k<width)");
